@@ -52,6 +52,10 @@ class CollectionPartSync(CollectionPartCache, CollectionPartHistory,
             old_token_name = old_token[len("http://radicale.org/ns/sync/"):]
             if not check_token_name(old_token_name):
                 raise ValueError("Malformed token: %r" % old_token)
+        # Delete expired history entries of deleted items first. Otherwise
+        # they are part of the new token and get removed right after it has
+        # been written, so that the token just handed out is already outdated.
+        self._clean_history()
         # Get the current state and sync-token of the collection.
         state = {}
         token_name_hash = sha256()
